@@ -94,7 +94,12 @@ func checkC11(e *Engine, r *Report) {
 		// created/running -> both lists; exited -> release list (see C09 for the list contents)
 		created, _ := sc.Lookup("ContainerStateCreated").(*types.Const)
 		running, _ := sc.Lookup("ContainerStateRunning").(*types.Const)
-		for _, k := range []*types.Const{created, running} {
+		exited, _ := sc.Lookup("ContainerStateExited").(*types.Const)
+		for _, k := range []*types.Const{created, running, exited} {
+			if k == nil {
+				r.Undecided("R6:state-constants", "R6 state classification", "Created/Running/Exited state constants exist", e.Pos(sw.Pos()), sw, "constant not found")
+				continue
+			}
 			src0, src1 := &sliceSrc{}, &sliceSrc{}
 			for _, ret := range Returns(sw) {
 				traceSlice(e, sw, retValue(ret, 0), src0, map[ssa.Value]bool{}, 0)
@@ -130,6 +135,10 @@ func checkC11(e *Engine, r *Report) {
 					}
 				}
 				return false
+			}
+			if k == exited {
+				r.Check("R6:"+k.Name()+"->released", "R6 state classification", "a cached container the runtime reports as exited is put on the release list, whatever state the cache had saved for it (only created/running containers may hold allocations after Synchronize)", e.Pos(sw.Pos()), sw, reach(src1), "", true)
+				continue
 			}
 			r.Check("R6:"+k.Name()+"->allocated", "R6 state classification", "a cached container in state "+k.Name()+" is put on the allocate list", e.Pos(sw.Pos()), sw, reach(src0), "", true)
 			r.Check("R6:"+k.Name()+"->released-first", "R6 state classification", "a cached container in state "+k.Name()+" is also put on the release list (its allocation is rebuilt, not trusted)", e.Pos(sw.Pos()), sw, reach(src1), "", true)
